@@ -11,26 +11,9 @@ import (
 // This file only exports unexported values and functions to verification
 // tooling. It is compiled only with the "verif" build tag.
 
-// VerifRegexps returns the source text of every package-level regular
-// expression of packages safehtml and internal/safehtmlutil.
-func VerifRegexps() map[string]string {
-	m := map[string]string{
-		"startsWithAlphabetPattern":             startsWithAlphabetPattern.String(),
-		"onlyAlphanumericsOrHyphenPattern":      onlyAlphanumericsOrHyphenPattern.String(),
-		"safeURLPattern":                        safeURLPattern.String(),
-		"trustedResourceURLFormatMarkerPattern": trustedResourceURLFormatMarkerPattern.String(),
-		"identifierPattern":                     identifierPattern.String(),
-		"safeRegularPropertyValuePattern":       safeRegularPropertyValuePattern.String(),
-		"safeEnumPropertyValuePattern":          safeEnumPropertyValuePattern.String(),
-		"cssStringPattern":                      cssStringPattern.String(),
-		"invalidCSSSelectorRune":                invalidCSSSelectorRune.String(),
-		"jsIdentifierPattern":                   jsIdentifierPattern.String(),
-	}
-	for k, v := range safehtmlutil.VerifRegexps() {
-		m[k] = v
-	}
-	return m
-}
+// (The package-level regular expressions are read by the verification tooling from the source
+// text, not through this file, so that renaming or removing a pattern variable does not break the
+// tagged build.)
 
 // VerifControlAndNonCharacter returns the range table used by
 // coerceToUTF8InterchangeValid.
